@@ -22,7 +22,9 @@ def prebuild():
 
 
 V4 = ["10.0.0.1", "10.0.0.2", "10.0.0.3", "192.168.1.200", "172.16.255.1", "1.2.3.4"]
-V6_FULL = ["fe80:0:0:0:1:2:3:4", "2001:db8:0:0:0:0:0:1", "0:0:0:0:0:0:0:1"]
+V6_FULL = ["fe80:0:0:0:1:2:3:4", "2001:db8:0:0:0:0:0:1", "0:0:0:0:0:0:0:1",
+           # same /64 (and same first 15 octets) as entries above: equality has to look at all 16 octets
+           "fe80:0:0:0:1:2:3:5", "fe80:0:0:0:9:2:3:4", "2001:db8:0:0:0:0:1:1", "0:0:0:0:0:0:0:2", "2001:db8:0:0:0:0:0:101"]
 V6_COMP = ["::1", "fe80::1", "2001:db8::7"]
 
 
